@@ -366,14 +366,34 @@ func (p *Program) classifyLoops(pkg *packages.Package, fd *ast.FuncDecl, r *Run)
 // countedLoop: for i := a; i < len(e) (or i >= 0); i++ (i--) with no other write to i.
 func countedLoop(info *types.Info, l *ast.ForStmt) (bool, string) {
 	init, ok := l.Init.(*ast.AssignStmt)
-	if !ok || len(init.Lhs) != 1 {
+	if !ok || len(init.Lhs) < 1 {
 		return false, ""
 	}
-	i := objOf(info, init.Lhs[0])
 	cond, ok := l.Cond.(*ast.BinaryExpr)
-	if !ok || objOf(info, cond.X) != i || i == nil {
+	if !ok {
 		return false, ""
 	}
+	// the index is one of the variables of the init statement (for i, n := 0, len(s); i < n; i++)
+	i := objOf(info, cond.X)
+	isInit := false
+	for _, lh := range init.Lhs {
+		if objOf(info, lh) == i && i != nil {
+			isInit = true
+		}
+	}
+	if !isInit {
+		return false, ""
+	}
+	// the bound: not changed inside the loop
+	bound := map[types.Object]bool{}
+	ast.Inspect(cond.Y, func(n ast.Node) bool {
+		if id, ok := n.(*ast.Ident); ok {
+			if v, isVar := objOf(info, id).(*types.Var); isVar && !v.IsField() {
+				bound[v] = true
+			}
+		}
+		return true
+	})
 	post, ok := l.Post.(*ast.IncDecStmt)
 	if !ok || objOf(info, post.X) != i {
 		return false, ""
@@ -388,12 +408,12 @@ func countedLoop(info *types.Info, l *ast.ForStmt) (bool, string) {
 		switch s := n.(type) {
 		case *ast.AssignStmt:
 			for _, lh := range s.Lhs {
-				if objOf(info, lh) == i {
+				if o := objOf(info, lh); o == i || (o != nil && bound[o] && len(bound) > 0 && isPlainVar(o)) {
 					written = true
 				}
 			}
 		case *ast.IncDecStmt:
-			if objOf(info, s.X) == i {
+			if o := objOf(info, s.X); o == i || (o != nil && bound[o] && isPlainVar(o)) {
 				written = true
 			}
 		}
@@ -1037,4 +1057,10 @@ func localDescends(p *Program, info *types.Info, fd *ast.FuncDecl, v types.Objec
 		return true
 	})
 	return desc
+}
+
+// isPlainVar: an integer variable (a bound held in a local), as opposed to a slice whose elements may be assigned.
+func isPlainVar(o types.Object) bool {
+	b, ok := o.Type().Underlying().(*types.Basic)
+	return ok && b.Info()&types.IsInteger != 0
 }
